@@ -313,3 +313,24 @@ Proof.
   destruct Hopt as [Hs Ho]. destruct (placed_facts _ _ _ _ Hg Hs Ht Hpl) as (Hc & _).
   eapply c12_z3_optimum; eauto. split; assumption.
 Qed.
+
+(* ---- the hypotheses of c12_z3_optimum are satisfiable by a state in which it says something: the chain
+        t0 -> t1 of Z3P.ex_chain under enforce_deadlines, both placed and meeting their deadlines (penalty 0) *)
+Lemma soft_penalty_nonneg : forall ins b, i_enforce ins = true -> 0 <= soft_penalty ins b.
+Proof.
+  intros ins b He. rewrite soft_penalty_enforce by exact He. induction (i_tasks ins) as [|t l IH]; cbn [fold_right]; [lia|].
+  unfold pen at 1. destruct (any_compatible ins t); [destruct (meets_deadline b t)|]; lia.
+Qed.
+Example c12_z3_optimum_nonvacuous : exists fs,
+  gen_z3 ex_chain = Ok fs /\ i_enforce ex_chain = true /\ NoDup (map zt_id (i_tasks ex_chain)) /\
+  soft_optimal ex_chain fs ex_chain_asg /\
+  forallb (fun t => truth ex_chain_asg (VPlaced (zt_id t)) && any_compatible ex_chain t && negb (hopeless ex_chain t)) (i_tasks ex_chain) = true.
+Proof.
+  set (fs0 := match gen_z3 ex_chain with Ok l => l | Err _ => [] end).
+  assert (E : gen_z3 ex_chain = Ok fs0) by (vm_compute; reflexivity).
+  exists fs0. split; [exact E|]. split; [reflexivity|]. split.
+  - cbn. repeat constructor; cbn; intuition lia.
+  - split; [|vm_compute; reflexivity]. split; [vm_compute; reflexivity|].
+    intros a' _. replace (soft_penalty ex_chain ex_chain_asg) with 0 by (vm_compute; reflexivity).
+    apply soft_penalty_nonneg. reflexivity.
+Qed.
